@@ -41,6 +41,19 @@ def run(repo, rep):
     rep.rule('C14.J3', 'leaving a requested association normally releases it, leaving it through an exception aborts it; '
              'the exception is propagated', 1)
 
+    rep.rule('C14.J4', 'a peer\'s final PDU (A-ABORT, A-ASSOCIATE-RJ, A-RELEASE-RP) that is already buffered is delivered before a '
+             'transport close is turned into a synthetic provider abort: the reported source and reason are the peer\'s', 1)
+    from ..provider_model import ProviderModel
+    from ..fsm_model import FsmModel
+    from .c03 import drain_order_problems
+    pm_ = ProviderModel(repo, FsmModel(repo))
+    rep.analysed(pm_.method('_check_network'))
+    probs_, n_app_ = drain_order_problems(pm_.paths('_check_network'))
+    if n_app_ == 0:
+        probs_.append('no path appends the received bytes to the buffer')
+    rep.check(not probs_, 'C14.J4', 'dulprovider:DULServiceProvider._check_network:peer-pdu-before-close', pm_.method('_check_network').loc(),
+              'buffered PDUs are decoded before the socket is polled again', '; '.join(sorted(set(probs_))))
+
     # ---------------------------------------------------------------- J1a: _establish
     est = acc.find_method('_establish')
     if est is None:
